@@ -124,10 +124,10 @@ class LogFormatter(logging.Formatter):
 
         clean_record = {}
         for key, value in dirty_record.items():
-            if isinstance(value, dict):
-                value = self.clean_record(value, colorize)
-            elif any(regex.search(key) for regex in COMPILED_KEYS_TO_SANITIZE):
+            if any(regex.search(key) for regex in COMPILED_KEYS_TO_SANITIZE):
                 value = f"{colors['PURPLE']}<redacted:{self.hash_it(str(value))}>{colors['OFF']}"
+            elif isinstance(value, dict):
+                value = self.clean_record(value, colorize)
             else:
                 value = QUOTES_OR_BACKTICKS_RE.sub(color_value, str(value))
 
